@@ -176,6 +176,33 @@ fn p_clone_some() {
     kani::cover!(true, "p_clone_some reaches end");
 }
 
+/// over-aligned payload: the distance between the strong count and the value depends on the
+/// payload's alignment, so clone/drop functions instantiated for another type would miss the count
+#[repr(align(64))]
+struct A64 { v: u32 }
+#[kani::proof]
+fn p_clone_overaligned() {
+    let v: u32 = kani::any();
+    let arc = Arc::new(A64 { v });
+    let keep = arc.clone();
+    let c = CArc::<A64>::from(arc);
+    let c2 = c.clone();
+    assert!(Arc::strong_count(&keep) == 3, "C10 clone increments the strong count by one (over-aligned payload)");
+    let o = c2.into_opaque();
+    let o2 = o.clone();
+    assert!(Arc::strong_count(&keep) == 4, "C10 opaque clone increments the strong count by one (over-aligned payload)");
+    drop(o);
+    drop(o2);
+    assert!(Arc::strong_count(&keep) == 2 && c.as_ref().unwrap().v == v, "C10 drops decrement by one each (over-aligned payload)");
+    let s = CArcSome::<A64>::from(keep.clone());
+    let s2 = s.clone();
+    assert!(Arc::strong_count(&keep) == 4, "C10 CArcSome clone increments (over-aligned payload)");
+    drop(s);
+    drop(s2);
+    drop(c);
+    assert!(Arc::strong_count(&keep) == 1, "C10 all handles released");
+    kani::cover!(true, "end");
+}
 //@ prefix=p_take kind=property clause=take: count unchanged, source becomes the empty handle whose drop calls nothing, result dereferences to the same value
 #[kani::proof]
 fn p_take() {
